@@ -387,7 +387,8 @@ def g_nasg(tier):
 
 def g_regconst(tier):
     """a register loaded with a constant and then compared with a constant: the optimiser decides the branch itself"""
-    for rn, k, k2, op in itertools.product(('X', 'Y'), (0, 3, 255), (0, 3, 4, 255), ('==', '!=', '<', '>=')):
+    for rn, k, k2, op in itertools.product(('X', 'Y', 'va', 'sa'), (0, 3, 5, 255), (0, 3, 4, 255), ('==', '!=', '<', '>=', '<=', '>')):
+        if rn == 'sa' and 255 in (k, k2): continue
         R = lambda: V(rn)
         one, two = (lambda: A(V('vc'), C(1))), (lambda: A(V('vc'), C(2)))
         base = 'deep/regconst/%s=%d/%s%d' % (rn, k, op, k2)
@@ -399,7 +400,8 @@ def g_regconst(tier):
         yield mkprog(base + '/for', [A(V('vc'), C(0)), For(Assign(R(), '=', C(k)), B(op, R(), C(k2)), Inc('++', False, R()), Block([ExprS(Inc('++', False, V('vc'))), If(B('==', V('vc'), C(3)), Break(), bare=True)]))])
         yield mkprog(base + '/while', [A(V('vc'), C(0)), A(R(), C(k)), While(B(op, R(), C(k2)), Block([ExprS(Inc('--', False, R())), ExprS(Inc('++', False, V('vc'))), If(B('==', V('vc'), C(3)), Break(), bare=True)]))])
         yield mkprog(base + '/twice', [A(R(), C(k)), If(B(op, R(), C(k2)), one(), two()), If(B(op, R(), C(k2)), A(V('vd'), C(1)), A(V('vd'), C(2)))])
-        yield mkprog(base + '/and', [A(R(), C(k)), If(B('&&', B(op, R(), C(k2)), V('va')), one(), two())])
+        yield mkprog(base + '/and', [A(R(), C(k)), If(B('&&', B(op, R(), C(k2)), V('vb')), one(), two())])
+        yield mkprog(base + '/do', [A(V('vc'), C(0)), A(R(), C(k)), DoWhile(Block([ExprS(Inc('--', False, R())), ExprS(Inc('++', False, V('vc'))), If(B('==', V('vc'), C(3)), Break(), bare=True)]), B(op, R(), C(k2)))])
 
 
 def g_init(tier):
@@ -453,7 +455,77 @@ def g_xfn(tier):
         yield mkprog(base + '/callee', [A(V('sb'), C(0)), ExprS(Call('g', [])), A(V('sb'), C(1)), ExprS(Call('g', []))], funcs=[f(), g], extra_globals=['va', 'vb', 'vd', 'arr', 'wa'])
 
 
+def flag_setters():
+    return [('X=va', lambda: A(X, V('va')), 'X'), ('Y=va', lambda: A(Y, V('va')), 'Y'), ('va=vb', lambda: A(V('va'), V('vb')), 'va'), ('va++', lambda: ExprS(Inc('++', False, V('va'))), 'va'), ('X++', lambda: ExprS(Inc('++', False, X)), 'X'),
+            ('Y--', lambda: ExprS(Inc('--', False, Y)), 'Y'), ('va=vb+1', lambda: A(V('va'), B('+', V('vb'), C(1))), 'va'), ('va=aY', lambda: A(V('va'), Index('arr', Y)), 'va'), ('va&=3', lambda: A(V('va'), C(3), '&='), 'va'),
+            ('X=aY', lambda: A(X, Index('arr', Y)), 'X'), ('wa++', lambda: ExprS(Inc('++', False, V('wa'))), 'wa'), ('sa=sb', lambda: A(V('sa'), V('sb')), 'sa'), ('va=f', lambda: A(V('va'), Call('f', [V('vb')])), 'va')]
+
+
+def g_flagctx(tier):
+    """a statement that leaves the flags describing Z, then an if/else (or a loop) whose condition is about OTHER values, then a
+    zero test of Z in the else branch / the then branch / after the statement: the generator saves and restores its flag knowledge
+    around the branches of an if"""
+    conds = [('Y==3', lambda: B('==', Y, C(3))), ('vb<vc', lambda: B('<', V('vb'), V('vc'))), ('aY==1', lambda: B('==', Index('brr', Y), C(1))), ('w256', lambda: B('==', V('wb'), C(256))), ('vd', lambda: V('vd')),
+             ('X<2', lambda: B('<', X, C(2))), ('and', lambda: B('&&', V('vb'), V('vc')))]
+    one, two, three = (lambda: A(V('sc'), C(1))), (lambda: A(V('sc'), C(2))), (lambda: A(V('sc'), C(3)))
+    for (sn, s, z), (cn, cnd) in itertools.product(flag_setters(), conds):
+        if z in cn: continue
+        Z = lambda: V(z)
+        fn = [F1()] if sn == 'va=f' else []
+        base = 'deep/flagctx/%s/%s' % (sn, cn)
+        if not keep(base, tier, 50): continue
+        for zn, zt in (('nz', lambda: Z()), ('z', lambda: B('==', Z(), C(0)))):
+            yield mkprog(base + '/else/' + zn, [s(), If(cnd(), one(), If(zt(), two(), three()))], funcs=fn)
+            yield mkprog(base + '/then/' + zn, [s(), If(cnd(), If(zt(), one(), two()), three())], funcs=fn)
+            yield mkprog(base + '/after/' + zn, [s(), If(cnd(), A(V('hc'), C(1))), If(zt(), two(), three())], funcs=fn)
+            yield mkprog(base + '/after-else/' + zn, [s(), If(cnd(), A(V('hc'), C(1)), A(V('hc'), C(2))), If(zt(), two(), three())], funcs=fn)
+            yield mkprog(base + '/else-bare/' + zn, [s(), If(cnd(), one(), If(zt(), two(), three(), bare=True), bare=True)], funcs=fn)
+            yield mkprog(base + '/while/' + zn, [s(), A(V('hc'), C(2)), While(B('&&', cnd(), V('hc')), ExprS(Inc('--', False, V('hc')))), If(zt(), two(), three())], funcs=fn)
+            yield mkprog(base + '/tern/' + zn, [s(), A(V('sc'), Tern(cnd(), C(1), Tern(zt(), C(2), C(3))))], funcs=fn)
+            yield mkprog(base + '/switch/' + zn, [s(), Switch(V('vd'), [(1, [If(zt(), one(), two()), Break()]), (None, [If(zt(), two(), three())])])], funcs=fn)
+
+
+def g_params(tier):
+    """functions with several parameters of mixed width and signedness; the body is sensitive to the type of ONE of them"""
+    T = ['u8', 's8', 'u16', 's16']
+    uses = [('lt', lambda p, t: Return(Tern(B('<', V(p), C(100)), C(1), C(2)))), ('gt', lambda p, t: Return(Tern(B('>', V(p), C(5)), C(1), C(2)))), ('widen', lambda p, t: Block([A(V('ha'), V(p)), Return(B('>>', V('ha'), C(8)))])),
+            ('shr', lambda p, t: Return(B('>>', V(p), C(1)))), ('cmpvar', lambda p, t: Return(Tern(B('<', V(p), V('q0' if p != 'q0' else 'q1')), C(1), C(2)))), ('neg', lambda p, t: Block([A(V('ha'), Un('-', V(p))), Return(B('>>', V('ha'), C(8)))])),
+            ('sum', lambda p, t: Block([A(V('wa'), B('+', V(p), V('wb'))), Return(B('>>', V('wa'), C(8)))]))]
+    argsrc = {'u8': ['va', 'vb', 'vc'], 's8': ['sa', 'sb', 'sc'], 'u16': ['wa', 'wb', 'wc'], 's16': ['ha', 'hb', 'hc']}
+    for t0, t1, t2 in itertools.product(T, T, T[:2]):
+        for which, (un, use) in itertools.product((0, 1, 2), uses):
+            pid = 'deep/params/%s-%s-%s/q%d/%s' % (t0, t1, t2, which, un)
+            if not keep(pid, tier, 12): continue
+            ts = [t0, t1, t2]
+            if un == 'cmpvar' and ts[which] != ts[0 if which else 1]: continue      # mixed-type comparisons: known-broken area
+            if un in ('lt', 'gt', 'cmpvar') and ts[which] in ('s8', 's16'): continue   # signed comparisons: known-broken area (K08)
+            body = use('q%d' % which, ts[which])
+            f = Func('f', 'u8', [(t, 'q%d' % k) for k, t in enumerate(ts)], body if isinstance(body, Block) else Block([body]))
+            args = [V(argsrc[t][k]) for k, t in enumerate(ts)]
+            yield mkprog(pid, [A(V('vd'), Call('f', args))], funcs=[f], extra_globals=['ha', 'wa', 'wb'])
+
+
+def g_self(tier):
+    """an index register reloaded from the element it indexes (a linked list walk), register moves, then the element is read again"""
+    for rn in ('X', 'Y'):
+        R = lambda: V(rn); O = lambda: V('Y' if rn == 'X' else 'X')
+        firsts = [('R=a[R]', lambda: A(R(), Index('arr', R()))), ('R=a[R]+1', lambda: A(R(), B('+', Index('arr', R()), C(1)))), ('R=a[R]&3', lambda: A(R(), B('&', Index('arr', R()), C(3)))), ('va=a[R];R=va', None)]
+        if rn == 'Y': firsts.append(('R=p[R]', lambda: A(R(), Index('pp', R()))))
+        mids = [('none', None), ('O=R', lambda: A(O(), R())), ('R=O', lambda: A(R(), O())), ('va=R', lambda: A(V('va'), R())), ('R++', lambda: ExprS(Inc('++', False, R()))), ('O=a[R]', lambda: A(O(), Index('arr', R()))),
+                ('sa=O', lambda: A(V('sa'), O())), ('a[R]=O', lambda: A(Index('brr', R()), O()))]
+        lasts = [('vb=a[R]', lambda: A(V('vb'), Index('arr', R()))), ('if', lambda: If(B('==', Index('arr', R()), C(1)), A(V('vc'), C(1)), A(V('vc'), C(2)))), ('vb=a[R]+1', lambda: A(V('vb'), B('+', Index('arr', R()), C(1)))),
+                 ('vb=a[O]', lambda: A(V('vb'), Index('arr', O())))]
+        for (fn_, f), (mn, m), (ln, l) in itertools.product(firsts, mids, lasts):
+            st = ([A(V('va'), Index('arr', R())), A(R(), V('va'))] if f is None else [f()]) + ([m()] if m else []) + [l()]
+            yield mkprog('deep/self/%s/%s/%s/%s' % (rn, fn_, mn, ln), st)
+            if mn != 'none' and keep('deep/self2/%s/%s/%s/%s' % (rn, fn_, mn, ln), tier, 40):
+                yield mkprog('deep/self2/%s/%s/%s/%s' % (rn, fn_, mn, ln), st + [m(), l()])
+
+
 def g_deep(tier):
+    yield from g_flagctx(tier)
+    yield from g_params(tier)
+    yield from g_self(tier)
     yield from g_xfn(tier)
     yield from g_init(tier)
     yield from g_regconst(tier)
